@@ -336,14 +336,14 @@ class C20(World):
             shutil.rmtree(scratch, ignore_errors=True)
 
     def _payload(self, op, cfg, st, ctx):
-        obj = fw.build_geometry(op["geom"])
+        obj = fw.build_geometry(op["geom"], cfg["fmt"])
         if cfg["kind"] == "mesh" and op["geom"].get("shape") == "empty":
             op = dict(op, geom=dict(op["geom"], shape="normal"))
-            obj = fw.build_geometry(op["geom"])
+            obj = fw.build_geometry(op["geom"], cfg["fmt"])
         files, main, ft = fw.export_payload(obj, cfg["fmt"])
         st.update({"files": files, "main": main, "ft": ft, "pristine": dict(files), "want": fw.content(obj)})
         try:
-            o2 = fw.build_geometry(op["other"])
+            o2 = fw.build_geometry(op["other"], cfg["fmt"])
             f2, m2, _ = fw.export_payload(o2, cfg["fmt"])
             st["other"] = f2[m2]
         except Exception:
